@@ -175,6 +175,27 @@ type Inner struct {
 // Validate reports to the simulator.
 func (i Inner) Validate() error { return cb.hit("Validate", "Inner", i.Y, true) }
 
+// TopV is a hand-written top-level target with a Validate method of its own.
+type TopV struct {
+	A int    `config:"a" validate:"simcheck=TopV.a"`
+	B string `config:"b" validate:"simcheck=TopV.b"`
+	S []int  `config:"s" validate:"simcheck=TopV.s"`
+	I Inner  `config:"i"`
+}
+
+// Validate reports to the simulator.
+func (t *TopV) Validate() error { return cb.hit("Validate", "TopV", t.A, true) }
+
+// topVStruct describes TopV in the terms of the generator.
+func topVStruct() *Struct {
+	return &Struct{Type: reflect.TypeOf(TopV{}), Fields: []*Field{
+		{Kind: KInt, GoName: "A", Name: "a", ID: "TopV.a"},
+		{Kind: KStr, GoName: "B", Name: "b", ID: "TopV.b"},
+		{Kind: KSInt, GoName: "S", Name: "s", ID: "TopV.s"},
+		{Kind: KInner, GoName: "I", Name: "i", ID: "TopV.i"},
+	}}
+}
+
 // ---------------------------------------------------------------------------------------------
 // Field kinds of generated struct types.
 
@@ -216,12 +237,13 @@ const (
 	KSStruct
 	KMStruct
 	KInline
+	KF32
 	kindCount
 )
 
 var kindNames = [...]string{"int", "int8", "uint16", "float64", "string", "bool", "duration", "*int", "*string", "VInt", "VStr",
 	"UStr", "UInt", "UBool", "UFloat", "UAny", "UCfg", "[]int", "[]string", "[]VInt", "[2]int", "map[string]int", "map[string]interface{}",
-	"interface{}", "*Config", "DInt", "Inner", "*Inner", "struct", "*struct", "[]struct", "map[string]struct", "inline-struct"}
+	"interface{}", "*Config", "DInt", "Inner", "*Inner", "struct", "*struct", "[]struct", "map[string]struct", "inline-struct", "float32"}
 
 func (k Kind) String() string { return kindNames[k] }
 
@@ -232,7 +254,7 @@ var (
 
 var leafTypes = map[Kind]reflect.Type{
 	KInt: reflect.TypeOf(int(0)), KInt8: reflect.TypeOf(int8(0)), KUint16: reflect.TypeOf(uint16(0)), KF64: reflect.TypeOf(float64(0)),
-	KStr: reflect.TypeOf(""), KBool: reflect.TypeOf(false), KDur: reflect.TypeOf(time.Duration(0)),
+	KStr: reflect.TypeOf(""), KBool: reflect.TypeOf(false), KDur: reflect.TypeOf(time.Duration(0)), KF32: reflect.TypeOf(float32(0)),
 	KPInt: reflect.TypeOf((*int)(nil)), KPStr: reflect.TypeOf((*string)(nil)),
 	KVInt: reflect.TypeOf(VInt(0)), KVStr: reflect.TypeOf(VStr("")),
 	KUStr: reflect.TypeOf(UStr{}), KUInt: reflect.TypeOf(UInt{}), KUBool: reflect.TypeOf(UBool{}), KUFloat: reflect.TypeOf(UFloat{}),
